@@ -65,8 +65,14 @@ def gen_frame (rng, kind=None, tagged=None, pad=None, payload_len=None,
     raw = F.eth(dst, src, 0x0800, ip(6, l4, options=b"\x94\x04\x00\x00"),
                 vlan, pad)
   elif k == "udp":
-    l4 = F.udp(rng.choice([7, 4000, 65535, 5000]), rng.choice([9, 1, 6000, 65534]),
-               data, src=sip, dst=dip, zero_csum=rng.random() < 0.2)
+    sp, dp = rng.choice([7, 4000, 65535, 5000]), rng.choice([9, 1, 6000, 65534])
+    if rng.random() < 0.25:
+      # ports of the applications the packet library knows (DNS, DHCP, RIP,
+      # VXLAN, mDNS), over a payload that is none of their messages: a UDP
+      # datagram with those ports all the same
+      sp, dp = rng.choice([(53, 4000), (4000, 53), (68, 67), (67, 68), (520, 520),
+                           (40000, 4789), (5353, 5353), (53, 53)])
+    l4 = F.udp(sp, dp, data, src=sip, dst=dip, zero_csum=rng.random() < 0.2)
     raw = F.eth(dst, src, 0x0800, ip(17, l4), vlan, pad)
   elif k == "icmp":
     l4 = F.icmp(rng.choice([8, 0, 3, 11, 255]), rng.choice([0, 1, 3, 255]),
